@@ -1,9 +1,12 @@
 package el
 
 import (
+	"fmt"
 	"regexp"
 	"strings"
 )
+
+const maxReplaceRounds = 256
 
 type Helper interface {
 	MatchString(s string) bool
@@ -37,10 +40,14 @@ func (e *elHelper) content(elr string) string {
 
 func (e *elHelper) ReplaceAllContent(s string, f func(content string) (string, error)) (string, error) {
 	var result = s
-	for true {
+	for round := 0; ; round++ {
 		elr := e.FindString(result)
 		if elr == "" {
 			break
+		}
+		//replacements that keep producing new expressions (e.g. a value that refers to itself) must not loop forever
+		if round >= maxReplaceRounds {
+			return "", fmt.Errorf("expression '%s' is still unresolved after %d replacements, circular reference?", s, maxReplaceRounds)
 		}
 		r, err := f(e.content(elr))
 		if err != nil {
